@@ -171,8 +171,11 @@ theorem gen_model_writers :
        "ipfix/rfc5102_model.go LoadExtElements: assign InfoModel",
        "ipfix/rfc5102_model.go LoadExtElements: assign InfoModel[ElementKey{PEN, elementID}]"] := by decide
 
-/-- in `main` the load comes before the statement that spawns the four `run()` loops (and nothing unrecognised in between) -/
+/-- in `main` the load comes before the statement that spawns the four `run()` loops: apart from statements that
+synchronise with nothing (`.setUp`), `main` begins with the signal channel, `signal.Notify`, the options, the load, and
+only then the start of the listeners (nothing unrecognised in between) -/
 theorem gen_load_before_listeners :
-    Gen.ShutdownIR.mainSteps.take 3 = [.notifySigintSigterm, .loadElements, .spawnRunsCounted] := by decide
+    (Gen.ShutdownIR.mainSteps.filter (· ≠ .setUp)).take 5 =
+      [.makeSignalChan 1, .notifySigintSigterm, .getOptions, .loadElements, .spawnRunsCounted] := by decide
 
 end Vflow.C20
